@@ -6,19 +6,25 @@ use crate::run::{Env, RunResult, Sub};
 pub mod c01;
 pub mod c02;
 pub mod c09;
+pub mod c07;
+pub mod c08;
 pub mod c10;
+pub mod c14;
 pub mod c15;
 pub mod c19;
 pub mod strings;
 
-pub const ALL: &[&str] = &["C01", "C02", "C09", "C10", "C15", "C16", "C17", "C18", "C19"];
+pub const ALL: &[&str] = &["C01", "C02", "C07", "C08", "C09", "C10", "C14", "C15", "C16", "C17", "C18", "C19"];
 
 pub fn all_subs() -> Vec<Sub> {
     let mut v = Vec::new();
     v.extend(c01::subs());
     v.extend(c02::subs());
     v.extend(c09::subs());
+    v.extend(c07::subs());
+    v.extend(c08::subs());
     v.extend(c10::subs());
+    v.extend(c14::subs());
     v.extend(c15::subs());
     v.extend(c19::subs());
     v.extend(strings::subs());
@@ -38,7 +44,10 @@ pub fn run(env: &mut Env) -> Option<RunResult> {
         "C01" => c01::run(env),
         "C02" => c02::run(env),
         "C09" => c09::run(env),
+        "C07" => c07::run(env),
+        "C08" => c08::run(env),
         "C10" => c10::run(env),
+        "C14" => c14::run(env),
         "C15" => c15::run(env),
         "C16" => strings::run_c16(env),
         "C17" => strings::run_c17(env),
@@ -90,6 +99,21 @@ pub fn meta(prop: &str) -> Meta {
             "exploration",
             "tape-generated valid packets are encoded by the library and decoded by the harness' reference decoder (written from the OASIS specs); the recovered wire-level values must equal project(packet), a name-keyed spec-number mapping that never uses `as u8`. Non-trivial: encoding longer than 4 bytes; distinct by hash of the encoding. Every reason/return code, property id per context and protocol level is required to have been exercised",
             &[COMMON_ASSUME, BOUNDS],
+        ),
+        "C07" => m(
+            "exploration",
+            "tape-generated valid packets x every cut position of their encoding (all positions up to 400 bytes; every field boundary +-1 and tape-chosen positions beyond) given to the blocking (Ok(None)), async and poll decoders (EOF error); the encoding followed by 0xFF runs, random bytes, itself or another valid packet must decode to the same packet with exactly the packet's bytes consumed. Non-trivial: at least one cut beyond the second byte inside the remaining-length field, a length prefix, string/binary data, a property or the payload; distinct by hash of the encoding",
+            &[COMMON_ASSUME, BOUNDS],
+        ),
+        "C08" => m(
+            "exploration",
+            "tape-generated sequences of 1..8 valid packets (mixed types, body-less packets, thorough: a 4-byte-header packet) concatenated and decoded one packet at a time by the blocking decoder (offsets advanced by encode_len and independently by the header), the async decoder on a shared slice and on a scripted chunked transport with Pending, and the poll decoder with a fresh state per packet; sequence equality, byte accounting and EOF at the clean boundary. Non-trivial: >= 2 packets of >= 2 different types; distinct by hash of the stream",
+            &[COMMON_ASSUME, BOUNDS],
+        ),
+        "C14" => m(
+            "fault_enumeration",
+            "tape-generated valid packets x fault position (every byte position up to 260 bytes, field boundaries and tape-chosen positions beyond, plus position = len) x io::ErrorKind {ConnectionReset, BrokenPipe, TimedOut, PermissionDenied, Other} (rotating; all five at every 16th position) x {async, poll decoder} x {one-shot, chunked+Pending delivery}; EOF at every position; write error and zero-length write at every position x {encode_async, streaming body encoder}; conversion table. Non-trivial: a packet with at least one fault strictly inside it; distinct by hash of the encoding",
+            &[COMMON_ASSUME, "Interrupted and WouldBlock are not injected: by convention they mean retry (std write_all retries Interrupted)"],
         ),
         "C15" => Meta {
             exhaustive_when_complete: true,
